@@ -7,7 +7,8 @@ from ..common import Emb, EXACT_EMBS, DEC_EMBS, unfl, run_driver_parallel
 RULE = ("M: ImagerGeometry.tla -- constructor/setters/fit arithmetic as coded (exact integers, half ticks) against the contract for all "
         "histories of length <=MaxLen. R/V: seeded histories (ctor, birth_range, pers_range, pixel_size, fit on single diagrams and "
         "collections, skew or not; ranges that are not multiples of the pixel size) replayed on a real PersistenceImager under tick sizes "
-        "1, 1/4 (exact) and 0.1, 0.7, 1/3 (inexact quotients); after every operation all public attributes, the transform output shape and "
+        "1, 1/4 (exact) and 0.1, 0.7, 1/3 (inexact quotients); after every operation all public attributes, the shapes of every image produced (single diagrams, collections, "
+        "empty diagrams alone and inside a collection) and "
         "tiny-box probes just inside the four corners of pixels are recorded; TraceImager.tla checks the contract event by event. "
         "Non-trivial = a history with an operation whose request is not a whole number of pixels; distinct = (history, tick).")
 TICKS = [Emb(1, 0, True, "tick=1"), Emb(Fraction(1, 4), 0, True, "tick=1/4"), Emb(Fraction(1, 10), 0, False, "tick=0.1"),
@@ -15,14 +16,16 @@ TICKS = [Emb(1, 0, True, "tick=1"), Emb(Fraction(1, 4), 0, True, "tick=1/4"), Em
 
 
 def gen_history(rng, maxlen, maxe=12, maxps=4):
-    def rng_range():
+    # births of one history are translated by sh ticks (negative filtration values: births entirely below zero, or straddling it)
+    sh = rng.choice([0, 0, 0, -3, -15, -40, 7])
+    def rng_range(sh=0):
         a = rng.randint(0, maxe - 1)
-        return (a, rng.randint(a + 1, maxe))
-    ops = [["ctor", rng_range(), rng_range(), rng.randint(1, maxps)]]
+        return (a + sh, rng.randint(a + 1, maxe) + sh)
+    ops = [["ctor", rng_range(sh), rng_range(), rng.randint(1, maxps)]]
     for _ in range(rng.randint(0, maxlen - 1)):
         k = rng.choice(["birth", "pers", "pix", "fit", "fit"])
         if k == "birth":
-            ops.append(["birth", rng_range()])
+            ops.append(["birth", rng_range(sh)])
         elif k == "pers":
             ops.append(["pers", rng_range()])
         elif k == "pix":
@@ -32,7 +35,7 @@ def gen_history(rng, maxlen, maxe=12, maxps=4):
             dgms = []
             for _ in range(nd):
                 npt = rng.randint(2, 5)
-                dgms.append([[rng.randint(0, maxe), rng.randint(1, maxe)] for _ in range(npt)])  # (birth, persistence>0) ticks
+                dgms.append([[rng.randint(0, maxe) + sh, rng.randint(1, maxe)] for _ in range(npt)])  # (birth, persistence>0) ticks
             bs = [p[0] for d in dgms for p in d]
             ps_ = [p[1] for d in dgms for p in d]
             if min(bs) == max(bs):
@@ -77,7 +80,7 @@ def to_case(ops, obs, e):
         vals = [e.ticks(unfl(o[kx]), 2 * q, shift=False) for kx in ("ps", "b0", "b1", "p0", "p1", "W", "H")]
         lat = int(all(v is not None and abs(v) < 10 ** 8 for v in vals))
         ev = dict(op=op[0], r1=[0, 0], r2=[0, 0], pz=0, pts=[], lattice=lat, obs=[v if lat else 0 for v in vals],
-                  res=o["res"], shape=o["shape"] if o["shape"] and len(o["shape"]) == 2 else [-1, -1], probes=o["probes"])
+                  res=o["res"], shapes=[sh_ if len(sh_) == 2 else [-1, -1] for sh_ in o["shapes"]], probes=o["probes"])
         if op[0] == "ctor":
             ev.update(r1=list(op[1]), r2=list(op[2]), pz=op[3])
         elif op[0] == "birth":
@@ -112,7 +115,7 @@ def validate(ctx, hists, embs, label, nproc=12):
         ctx.count(1, key=(str(hists[i]), embs[i].name), nontrivial=nontrivial(hists[i]))
         if status == "ok":
             ctx.ok_trace()
-            ctx.sample({"history_ticks": hists[i], "tick": embs[i].name, "last_observation": {k: c["events"][-1][k] for k in ("obs", "res", "shape")}, "q": c["q"], "verdict": "ok"}, cap=3)
+            ctx.sample({"history_ticks": hists[i], "tick": embs[i].name, "last_observation": {k: c["events"][-1][k] for k in ("obs", "res", "shapes")}, "q": c["q"], "verdict": "ok"}, cap=3)
         elif status == "divergence":
             ctx.divergence({"clause": clause, "event": at, "history": hists[i], "tick": embs[i].name})
         else:
